@@ -101,6 +101,9 @@ def run(tier):
     # short child sequences, with raw value texts (C03's engine under this property's prefix)
     import c03
     c03.check_accessors(F, C, rule_prefix="C06/lossless-accessors")
+    # joint acceptance of well-formed *text*: the token-level products above assume the lexer tokenises every
+    # well-formed line form as the grammar says (shared lexer: one table for both readers)
+    c03.check_lexing(F, C, "C06/wellformed-lexing")
     C.assumptions += ["agreement is decided on well-formed documents (the oracle grammar); for arbitrary texts accepted by both readers only the shared lexer and the per-role reading are decided"]
     return C.finish("Both readers are explored in product with the same well-formed token grammar whose transitions carry roles (field name, value line, paragraph break...). "
                     "Monitors check that each reader reacts to every role in the way that yields the same paragraphs, names and value lines; Err/panic outcomes are violations.")
